@@ -32,6 +32,11 @@ def detectors(shape, T, kinds=("field", "energy", "poynting", "phasor", "field_r
     if "phasor" in kinds:
         out.append(box_detector(fdtdx.PhasorDetector, "det_phasor", (0, ny - 1, zmid), (nx, 1, 1), dtype=C128, wave_characters=(WAVE,),
                                 components=("Ey", "Hx"), exact_interpolation=True))
+    if "phasor_apod" in kinds:
+        # Gaussian apodization: per-step weights exp(-(t - 1.5 dt)^2 / (2 (1.2 dt)^2)), dt ~ 9.5e-17 s in these scenes
+        out.append(box_detector(fdtdx.PhasorDetector, "det_phasor_apod", (0, 0, zmid), (1, ny, 1), dtype=C128, wave_characters=(WAVE,),
+                                components=("Ex", "Hz"), exact_interpolation=False,
+                                apodization=fdtdx.GaussianWindow(center_time=1.4e-16, sigma_time=1.15e-16)))
     return out
 
 
